@@ -233,7 +233,7 @@ def run(ctx):
     timing["corpus"] = round(time.time() - t0, 1)
 
     # ---- 2. random (CFG, schedule) pairs: impl vs model vs spec
-    n_rand = 1000 if ctx.quick else 10000
+    n_rand = 2000 if ctx.quick else 10000
     cases = [rand_case(r) for _ in range(n_rand)]
     impl = impl_batch(ctx, "run", cases)
     timing["impl_random"] = round(time.time() - t0, 1)
@@ -280,13 +280,13 @@ def run(ctx):
     # ---- 3. failing-input search: small CFGs x every pop order
     small = list(small_space(2, ["live0", "live1", "liveR", "ass0", "ass1", "ass2", "an"]))
     if ctx.quick:
-        small = small[r.randrange(5)::5]
+        small = small[r.randrange(2)::2]
     exhaustive2 = 0 if ctx.quick else len(small)
     if ctx.quick:
-        small += list(small_space(3, ["live0", "ass0"], r, 1))[::23]
+        small += list(small_space(3, ["live0", "ass0"], r, 1))[::7]
         small += [dict(rand_case(r, nmax=5, nvars=2), sched=[]) for _ in range(300)]
     else:
-        small += list(small_space(3, ["live0", "live1", "ass0", "ass2"], r, 2))[::2]
+        small += list(small_space(3, ["live0", "live1", "ass0", "ass2"], r, 2))
         small += [dict(rand_case(r, nmax=6, nvars=2), sched=[]) for _ in range(3000)]
     timing["spec_random"] = round(time.time() - t0, 1)
     bad_small = check_explored(small, "search")
